@@ -1,4 +1,7 @@
 import Guard.Judge.C02
+import Guard.Lemmas.Records
+import Guard.Lemmas.RecExt
+import Guard.Lemmas.ConsEval
 /-
   C02 — every composite status follows from its parts.
   The evaluator model computes every composite status through the five aggregators below
@@ -146,5 +149,54 @@ example : Consistent (.node (.fileCheck .fail) [
 example : Consistent (.node (.fileCheck .pass) [
     .node (.ruleCheck "b".toList .fail none) [.node (.guardClauseBlockCheck .fail) [.node (.clauseValueCheck (.noValueForEmptyCheck none)) []]]]) = false := by
   decide
+
+/-- **the root of the tree is the verdict**: whenever a (rules file, document) evaluation succeeds, the record tree
+    it returns is a `FileCheck` that carries exactly the returned status, that status is the aggregation of the
+    statuses of the file's rules, and the root's children are — in file order — one `RuleCheck` per rule carrying
+    the status that rule's evaluation returned.  For every program, document, environment and fuel. -/
+theorem C02_root_is_verdict (env : Env) (fuel : Nat) (file : RulesFile) (doc : PV) (s : Status) (t : Rec)
+    (h : runFile env fuel file doc = .ok (s, t)) :
+    t.kind = .fileCheck s ∧
+    ∃ sts : List Status, sts.length = file.rules.length ∧ s = bodyStatus sts ∧
+      t.children.map Rec.kind = (file.rules.zip sts).map fun p => RecKind.ruleCheck p.1.name p.2 none := by
+  obtain ⟨sts, hl, hs, hk, hc⟩ := runFile_top env fuel file doc s t h
+  exact ⟨hk, sts, hl, hs, hc⟩
+
+/-- records are well nested at the top: a whole-file evaluation leaves exactly one open record (the root) -/
+theorem C02_one_root (env : Env) (fuel : Nat) (file : RulesFile) (doc : PV) (s : Status) (st : St)
+    (h : evalRulesFile env fuel file (St.init file doc) = .ok (s, st)) : ∃ r, st.recs = [r] :=
+  runFile_never_panics_on_records env fuel file doc s st h
+
+/-- **recorder discipline** (the `start_record` / `end_record` stack of the Rust recorder): evaluating a clause
+    never drops, reorders or rewrites a record of its caller; its own records sit on top.  Holds for all 17
+    functions of the evaluator (`allRx`), every program, state and fuel. -/
+theorem C02_records_only_added (env : Env) (fuel : Nat) (c : Clause) (st st' : St) (s : Status)
+    (h : evalClause env fuel c st = .ok (s, st')) : ∃ new, st'.recs = new ++ st.recs :=
+  (allRx env fuel).clause c st s st' h
+
+/-- a composite record carries the status its evaluation returned: rules … -/
+theorem C02_rule_record_status (env : Env) (fuel : Nat) (r : Rule) (st st' : St) (s : Status)
+    (h : evalRule env fuel r st = .ok (s, st')) : ∃ ch, st'.recs = Rec.node (.ruleCheck r.name s none) ch :: st.recs :=
+  evalRule_record env fuel r st st' s h
+
+/-- **C02 at full strength, for the evaluator itself**: for EVERY rules file, document, environment and fuel,
+    whenever the evaluation completes, the record tree it returns is `Consistent` — at every composite record
+    (file, rule, condition, type check and type block, `when` block, block clause, disjunction, filter, access
+    clause, named-rule reference) the recorded status is explained, through the documented aggregation, by the
+    records below it.  `Consistent` is the very predicate the driver runs as judge on the implementation's
+    trees, so this is "the judge can never fire on the model", by induction over the 17 mutually recursive
+    functions of the evaluator (`allInv`). -/
+theorem C02_tree_consistent (env : Env) (fuel : Nat) (file : RulesFile) (doc : PV) (s : Status) (t : Rec)
+    (h : runFile env fuel file doc = .ok (s, t)) : Consistent t = true :=
+  runFile_consistent env fuel file doc s t h
+
+/-- … and the same for every clause wherever it is evaluated: what a clause pushes is one line record that
+    carries (a reading of) the status the clause returned, on top of consistent subtrees only -/
+theorem C02_clause_records_consistent (env : Env) (fuel : Nat) (c : Clause) (st st' : St) (s : Status)
+    (h : evalClause env fuel c st = .ok (s, st')) :
+    ∃ ps, st'.recs = ps.reverse ++ st.recs ∧ ConsistentList ps = true ∧
+      ∃ L, lineRecs ps = [L] ∧ s ∈ lineOptions L := by
+  obtain ⟨ps, e, c', L, hl, hs, _⟩ := (allInv env fuel).clause c st s st' h
+  exact ⟨ps, e, c', L, hl, hs⟩
 
 end Guard.C02
